@@ -1,0 +1,244 @@
+//go:build verif
+
+package policer
+
+import (
+	"bytes"
+	"context"
+	"errors"
+	"fmt"
+	"io"
+	"strconv"
+	"sync"
+
+	iec "github.com/nspcc-dev/neofs-node/internal/ec"
+	objectcore "github.com/nspcc-dev/neofs-node/pkg/core/object"
+	"github.com/nspcc-dev/neofs-node/pkg/local_object_storage/engine"
+	"github.com/nspcc-dev/neofs-node/pkg/services/replicator"
+	apistatus "github.com/nspcc-dev/neofs-sdk-go/client/status"
+	cid "github.com/nspcc-dev/neofs-sdk-go/container/id"
+	"github.com/nspcc-dev/neofs-sdk-go/netmap"
+	"github.com/nspcc-dev/neofs-sdk-go/object"
+	oid "github.com/nspcc-dev/neofs-sdk-go/object/id"
+	"go.uber.org/zap"
+)
+
+// Answers of a node asked for an EC part in VerifECEnv.
+const (
+	VerifPartHolds = iota
+	VerifPartNotFound
+	VerifPartMaintenance
+	VerifPartError
+)
+
+// VerifECEnv is a scripted environment of the Policer pass over a local EC
+// part, including the health check of the sibling parts and the re-creation of
+// the lost ones (checkECParts, recreateECParts). The object is really split
+// according to the rule: headers and payloads served by the fakes are the ones
+// of real part objects, so lost parts are really re-calculated.
+type VerifECEnv struct {
+	// Network.GetNodesForObject result.
+	NodeLists [][]netmap.NodeInfo
+	RepRules  []uint
+	ECRules   [][2]uint8
+	// Network.IsLocalNodePublicKey / IsLocalNodeInNetmap.
+	LocalKey []byte
+
+	// Index of the EC rule the parts below belong to.
+	RuleIdx int
+	// Header of the EC parent (container, ID, owner and payload size are set).
+	Parent object.Object
+	// Payloads of all parts of the parent according to the RuleIdx-th rule.
+	Parts [][]byte
+
+	// PartStatus tells what the node (incl. the local one) answers to HEAD
+	// (ranged=false) and RANGE (ranged=true) requests for the part.
+	PartStatus func(node netmap.NodeInfo, local bool, partIdx int, ranged bool) int
+	// Head answers a remote HEAD request for the local object itself.
+	Head func(node netmap.NodeInfo, addr oid.Address) error
+	// Replicator handles replication tasks.
+	Replicator interface {
+		HandleTask(context.Context, replicator.Task, replicator.TaskResult)
+	}
+
+	mtx sync.Mutex
+	// Deleted records localStorage.Delete calls in order: true for the
+	// "redundant" garbage mark, false for the default one.
+	Deleted []bool
+
+	partObjs []object.Object
+}
+
+// VerifPartObject returns the object carrying the i-th part.
+func (x *VerifECEnv) VerifPartObject(i int) object.Object { return x.partObjs[i] }
+
+// VerifNewEC builds Policer working in the given scripted environment.
+func VerifNewEC(env *VerifECEnv) (*Policer, error) {
+	env.partObjs = make([]object.Object, len(env.Parts))
+	for i := range env.Parts {
+		var err error
+		env.partObjs[i], err = iec.FormObjectForECPart(nil, env.Parent, env.Parts[i], iec.PartInfo{RuleIndex: env.RuleIdx, Index: i})
+		if err != nil {
+			return nil, err
+		}
+	}
+	c := defaultCfg()
+	c.log = zap.NewNop()
+	c.network = verifECNetwork{env}
+	c.apiConns = verifECConns{env}
+	c.localStorage = verifECStorage{env}
+	c.replicator = env.Replicator
+	return &Policer{cfg: c}, nil
+}
+
+// VerifECPartIndex returns index of the EC part carried by the object
+// according to its attributes, or -1.
+func VerifECPartIndex(obj object.Object) int {
+	pi, err := iec.GetPartInfo(obj)
+	if err != nil || pi.RuleIndex < 0 {
+		return -1
+	}
+	return pi.Index
+}
+
+type verifECNetwork struct{ *VerifECEnv }
+
+func (x verifECNetwork) IsLocalNodeInNetmap() bool { return true }
+
+func (x verifECNetwork) IsLocalNodePublicKey(k []byte) bool { return string(k) == string(x.LocalKey) }
+
+func (x verifECNetwork) GetNodesForObject(oid.Address) ([][]netmap.NodeInfo, []uint, []iec.Rule, error) {
+	var ecRules []iec.Rule
+	for _, r := range x.ECRules {
+		ecRules = append(ecRules, iec.Rule{DataPartNum: r[0], ParityPartNum: r[1]})
+	}
+	return x.NodeLists, x.RepRules, ecRules, nil
+}
+
+func verifPartErr(st int) error {
+	switch st {
+	case VerifPartHolds:
+		return nil
+	case VerifPartNotFound:
+		return fmt.Errorf("verif: %w", apistatus.ErrObjectNotFound)
+	case VerifPartMaintenance:
+		return fmt.Errorf("verif: %w", apistatus.ErrNodeUnderMaintenance)
+	}
+	return errors.New("verif: node is unreachable")
+}
+
+func (x *VerifECEnv) partByAttrs(xs []string) (int, error) {
+	if len(xs) != 4 || xs[0] != iec.AttributeRuleIdx || xs[2] != iec.AttributePartIdx {
+		return 0, fmt.Errorf("verif: unexpected attribute filter %v", xs)
+	}
+	ri, err1 := strconv.Atoi(xs[1])
+	pi, err2 := strconv.Atoi(xs[3])
+	if err1 != nil || err2 != nil || ri != x.RuleIdx || pi < 0 || pi >= len(x.partObjs) {
+		return 0, fmt.Errorf("verif: unexpected part request %v", xs)
+	}
+	return pi, nil
+}
+
+type verifECConns struct{ e *VerifECEnv }
+
+func (x verifECConns) headObject(_ context.Context, node netmap.NodeInfo, addr oid.Address, _ bool, xs []string) (object.Object, error) {
+	if xs == nil {
+		return object.Object{}, x.e.Head(node, addr)
+	}
+	pi, err := x.e.partByAttrs(xs)
+	if err != nil {
+		return object.Object{}, err
+	}
+	if addr.Object() != x.e.Parent.GetID() {
+		return object.Object{}, errors.New("verif: part requested for another parent")
+	}
+	if err := verifPartErr(x.e.PartStatus(node, false, pi, false)); err != nil {
+		return object.Object{}, err
+	}
+	return *x.e.partObjs[pi].CutPayload(), nil
+}
+
+func (x verifECConns) GetRange(_ context.Context, node netmap.NodeInfo, _ cid.ID, parent oid.ID, off, ln uint64, xs []string) (io.ReadCloser, error) {
+	pi, err := x.e.partByAttrs(xs)
+	if err != nil {
+		return nil, err
+	}
+	if parent != x.e.Parent.GetID() {
+		return nil, errors.New("verif: part requested for another parent")
+	}
+	if err := verifPartErr(x.e.PartStatus(node, false, pi, true)); err != nil {
+		return nil, err
+	}
+	b, err := verifCut(x.e.Parts[pi], off, ln)
+	if err != nil {
+		return nil, err
+	}
+	return io.NopCloser(bytes.NewReader(b)), nil
+}
+
+func verifCut(b []byte, off, ln uint64) ([]byte, error) {
+	if off == 0 && ln == 0 {
+		return b, nil
+	}
+	if off > uint64(len(b)) || ln > uint64(len(b))-off {
+		return nil, apistatus.ErrObjectOutOfRange
+	}
+	return b[off : off+ln], nil
+}
+
+type verifECStorage struct{ e *VerifECEnv }
+
+func (x verifECStorage) ListWithCursor(context.Context, uint32, *engine.Cursor, ...string) ([]objectcore.AddressWithAttributes, *engine.Cursor, error) {
+	return nil, nil, engine.ErrEndOfListing
+}
+
+func (x verifECStorage) Delete(_ context.Context, _ oid.Address, mark engine.GarbageMark) error {
+	x.e.mtx.Lock()
+	x.e.Deleted = append(x.e.Deleted, mark == engine.GarbageMarkRedundant)
+	x.e.mtx.Unlock()
+	return nil
+}
+
+func (x verifECStorage) DeleteRedundantCopies(context.Context, oid.Address, []string) error {
+	return errors.New("verif: unexpected local DeleteRedundantCopies call")
+}
+
+func (x verifECStorage) Put(context.Context, *object.Object, []byte) error {
+	return errors.New("verif: unexpected local Put call")
+}
+
+func (x verifECStorage) Head(_ context.Context, addr oid.Address, _ bool) (*object.Object, error) {
+	if addr.Object() != x.e.Parent.GetID() {
+		return nil, apistatus.ErrObjectNotFound
+	}
+	hdr := x.e.Parent
+	return &hdr, nil
+}
+
+func (x verifECStorage) local() netmap.NodeInfo {
+	var n netmap.NodeInfo
+	n.SetPublicKey(x.e.LocalKey)
+	return n
+}
+
+func (x verifECStorage) HeadECPart(_ context.Context, _ cid.ID, parent oid.ID, pi iec.PartInfo) (object.Object, error) {
+	if parent != x.e.Parent.GetID() || pi.RuleIndex != x.e.RuleIdx || pi.Index < 0 || pi.Index >= len(x.e.partObjs) {
+		return object.Object{}, errors.New("verif: unexpected local part request")
+	}
+	if err := verifPartErr(x.e.PartStatus(x.local(), true, pi.Index, false)); err != nil {
+		return object.Object{}, err
+	}
+	return *x.e.partObjs[pi.Index].CutPayload(), nil
+}
+
+func (x verifECStorage) GetRange(_ context.Context, addr oid.Address, off, ln uint64) ([]byte, error) {
+	for i := range x.e.partObjs {
+		if x.e.partObjs[i].GetID() == addr.Object() {
+			if err := verifPartErr(x.e.PartStatus(x.local(), true, i, true)); err != nil {
+				return nil, err
+			}
+			return verifCut(x.e.Parts[i], off, ln)
+		}
+	}
+	return nil, apistatus.ErrObjectNotFound
+}
